@@ -459,3 +459,98 @@ package webdav
 //@   allocates
 //@   ensures V1: mutations == old(mutations) && epCalls == old(epCalls) && epCode == old(epCode) && epVal == old(epVal)
 //@   ensures V2: err == nil
+
+//@ -- ---------------------------------------------------------------------------------------
+//@ -- The WebDAV client. C14: a call fails exactly when the request cannot be built, the transport fails or the status
+//@ -- is not 2xx, and then reports the status; C05: the request is addressed to exactly the named resource (relative
+//@ -- names resolved against the endpoint path) with exactly the requested options.
+//@ spec wclientOK(c *Client) bool = c != nil && clientOK(c.ic) && hasPrefix(c.ic.endpoint.Path, "/")
+//@ spec plainOutcome(c *Client, err error) bool = (lastErr(c.ic) != nil ==> err == lastErr(c.ic))
+//@   | && (lastErr(c.ic) == nil && lastStatus(c.ic) / 100 != 2 ==> err != nil && dynHTTP(err) && httpCode(err) == lastStatus(c.ic))
+//@   | && (lastErr(c.ic) == nil && lastStatus(c.ic) / 100 == 2 ==> err == nil)
+//@ spec sentTo(c *Client, method string, name string) bool = nrMethod == method && lastReq != nil && lastReq.Method == method
+//@   | && (!hasPrefix(resolved(c.ic, name), "//") ==> urlParseOk(nrURL) && urlParsePath(nrURL) == resolved(c.ic, name))
+//@ func webdav.(*Client).RemoveAll(c, ctx, name) (err)
+//@   requires R1: wclientOK(c)
+//@   allocates
+//@   assigns ghost:data, ghost:doCalls, ghost:lastReq, ghost:nrCalls, ghost:nrMethod, ghost:nrURL, ghost:nrReq
+//@   ensures E1: doCalls == old(doCalls) ==> err != nil
+//@   ensures E2: doCalls == old(doCalls) + 1 ==> plainOutcome(c, err) && sentTo(c, "DELETE", name)
+//@   ensures E3: doCalls == old(doCalls) || doCalls == old(doCalls) + 1
+//@ func webdav.(*Client).Mkdir(c, ctx, name) (err)
+//@   requires R1: wclientOK(c)
+//@   allocates
+//@   assigns ghost:data, ghost:doCalls, ghost:lastReq, ghost:nrCalls, ghost:nrMethod, ghost:nrURL, ghost:nrReq
+//@   ensures E1: doCalls == old(doCalls) ==> err != nil
+//@   ensures E2: doCalls == old(doCalls) + 1 ==> plainOutcome(c, err) && sentTo(c, "MKCOL", name)
+//@   ensures E3: doCalls == old(doCalls) || doCalls == old(doCalls) + 1
+//@ func webdav.(*Client).Open(c, ctx, name) (rc, err)
+//@   requires R1: wclientOK(c)
+//@   allocates
+//@   assigns ghost:data, ghost:doCalls, ghost:lastReq, ghost:nrCalls, ghost:nrMethod, ghost:nrURL, ghost:nrReq
+//@   ensures E1: doCalls == old(doCalls) ==> err != nil
+//@   ensures E2: doCalls == old(doCalls) + 1 ==> plainOutcome(c, err) && sentTo(c, "GET", name)
+//@   ensures E3: doCalls == old(doCalls) || doCalls == old(doCalls) + 1
+//@   -- the body handed to the caller is the response's
+//@   ensures E4: err == nil ==> rc == doResp(c.ic.http, lastReq).Body
+//@ func webdav.(*Client).Copy(c, ctx, name, dest, options) (err)
+//@   nilable options
+//@   requires R1: wclientOK(c)
+//@   allocates
+//@   assigns ghost:data, ghost:doCalls, ghost:lastReq, ghost:nrCalls, ghost:nrMethod, ghost:nrURL, ghost:nrReq, ghost:hv
+//@   ensures E1: doCalls == old(doCalls) ==> err != nil
+//@   ensures E2: doCalls == old(doCalls) + 1 ==> plainOutcome(c, err) && sentTo(c, "COPY", name)
+//@   ensures E3: doCalls == old(doCalls) || doCalls == old(doCalls) + 1
+//@   -- exactly the requested options, and the destination resolved like the source
+//@   ensures O1: doCalls == old(doCalls) + 1 ==> hget(hv, lastReq.Header, "Overwrite") == ((options != nil && old(options.NoOverwrite)) ? "F" : "T")
+//@   ensures O2: doCalls == old(doCalls) + 1 ==> hget(hv, lastReq.Header, "Depth") == ((options != nil && old(options.NoRecursive)) ? "0" : "infinity")
+//@   ensures O3: doCalls == old(doCalls) + 1 && !hasPrefix(resolved(c.ic, dest), "//") ==> urlParseOk(hget(hv, lastReq.Header, "Destination")) && urlParsePath(hget(hv, lastReq.Header, "Destination")) == resolved(c.ic, dest)
+//@ func webdav.(*Client).Move(c, ctx, name, dest, options) (err)
+//@   nilable options
+//@   requires R1: wclientOK(c)
+//@   allocates
+//@   assigns ghost:data, ghost:doCalls, ghost:lastReq, ghost:nrCalls, ghost:nrMethod, ghost:nrURL, ghost:nrReq, ghost:hv
+//@   ensures E1: doCalls == old(doCalls) ==> err != nil
+//@   ensures E2: doCalls == old(doCalls) + 1 ==> plainOutcome(c, err) && sentTo(c, "MOVE", name)
+//@   ensures E3: doCalls == old(doCalls) || doCalls == old(doCalls) + 1
+//@   ensures O1: doCalls == old(doCalls) + 1 ==> hget(hv, lastReq.Header, "Overwrite") == ((options != nil && old(options.NoOverwrite)) ? "F" : "T")
+//@   ensures O2: doCalls == old(doCalls) + 1 ==> hget(hv, lastReq.Header, "Depth") == ""
+//@   ensures O3: doCalls == old(doCalls) + 1 && !hasPrefix(resolved(c.ic, dest), "//") ==> urlParseOk(hget(hv, lastReq.Header, "Destination")) && urlParsePath(hget(hv, lastReq.Header, "Destination")) == resolved(c.ic, dest)
+//@ -- multi-status to FileInfo (C14: a failed response or a failed mandatory property is an error, never data; C05: the
+//@ -- path reported is the response's href)
+//@ func webdav.fileInfoFromResponse(resp) (fi, err)
+//@   requires R1: resp != nil
+//@   allocates
+//@   ensures I1: old(respFailed(resp)) ==> fi == nil && err != nil && httpCode(err) == old(resp.Status.Code)
+//@   ensures I2: err == nil ==> fi != nil && fresh(fi) && old(!respFailed(resp) && len(resp.Hrefs) == 1) && fi.Path == old(resp.Hrefs[0].Path)
+//@   ensures I3: err != nil ==> fi == nil
+//@ func webdav.(*Client).Stat(c, ctx, name) (fi, err)
+//@   requires R1: wclientOK(c)
+//@   allocates
+//@   assigns ghost:data, ghost:doCalls, ghost:lastReq, ghost:sentCount, ghost:sentMethod, ghost:sentPath, ghost:sentBody, ghost:hv
+//@   ensures E1: doCalls == old(doCalls) ==> fi == nil && err != nil
+//@   ensures E2: doCalls == old(doCalls) + 1 && (lastErr(c.ic) != nil || lastStatus(c.ic) != 207) ==> fi == nil && err != nil && (lastErr(c.ic) == nil && lastStatus(c.ic) / 100 != 2 ==> httpCode(err) == lastStatus(c.ic))
+//@   ensures E3: doCalls == old(doCalls) || doCalls == old(doCalls) + 1
+//@   ensures E4: err == nil ==> fi != nil && lastStatus(c.ic) == 207
+//@ func webdav.(*Client).ReadDir(c, ctx, name, recursive) (l, err)
+//@   requires R1: wclientOK(c)
+//@   allocates
+//@   assigns ghost:data, ghost:doCalls, ghost:lastReq, ghost:sentCount, ghost:sentMethod, ghost:sentPath, ghost:sentBody, ghost:hv
+//@   ensures E1: doCalls == old(doCalls) ==> err != nil
+//@   ensures E2: doCalls == old(doCalls) + 1 && (lastErr(c.ic) != nil || lastStatus(c.ic) != 207) ==> err != nil && (lastErr(c.ic) == nil && lastStatus(c.ic) / 100 != 2 ==> httpCode(err) == lastStatus(c.ic))
+//@   ensures E3: doCalls == old(doCalls) || doCalls == old(doCalls) + 1
+//@   -- C05: the Depth asked for, and one FileInfo per response, in order, under the response's href; any failed response is an error
+//@   ensures D1: doCalls == old(doCalls) + 1 ==> hget(hv, lastReq.Header, "Depth") == (recursive ? "infinity" : "1") && sentMethod == "PROPFIND" && sentPath == name
+//@   ensures D2: err == nil ==> (let d : decoded(xmlDecoderOf(doResp(c.ic.http, lastReq).Body), "internal.MultiStatus") in len(l) == len(d.Responses)
+//@   |   && (forall j int :: 0 <= j && j < len(l) ==> !respFailedV(d.Responses[j]) && len(d.Responses[j].Hrefs) == 1 && l[j].Path == d.Responses[j].Hrefs[0].Path))
+//@   loop 1 invariant I1: fresh(l) && len(l) == #i && ms != nil && *ms == decoded(xmlDecoderOf(doResp(c.ic.http, lastReq).Body), "internal.MultiStatus") && doCalls == old(doCalls) + 1 && lastErr(c.ic) == nil && lastStatus(c.ic) == 207
+//@   |   && hget(hv, lastReq.Header, "Depth") == (recursive ? "infinity" : "1") && sentMethod == "PROPFIND" && sentPath == name
+//@   loop 1 invariant I2: forall j int :: 0 <= j && j < #i ==> !respFailedV(ms.Responses[j]) && len(ms.Responses[j].Hrefs) == 1 && l[j].Path == ms.Responses[j].Hrefs[0].Path
+//@ spec respFailedV(r internal.Response) bool = r.Status != nil && r.Status.Code / 100 != 2
+//@ func webdav.(*Client).FindCurrentUserPrincipal(c, ctx) (p, err)
+//@   requires R1: wclientOK(c)
+//@   allocates
+//@   assigns ghost:data, ghost:doCalls, ghost:lastReq, ghost:sentCount, ghost:sentMethod, ghost:sentPath, ghost:sentBody, ghost:hv
+//@   ensures E1: doCalls == old(doCalls) ==> err != nil
+//@   ensures E2: doCalls == old(doCalls) + 1 && (lastErr(c.ic) != nil || lastStatus(c.ic) != 207) ==> err != nil && (lastErr(c.ic) == nil && lastStatus(c.ic) / 100 != 2 ==> httpCode(err) == lastStatus(c.ic))
+//@   ensures E3: err != nil ==> p == ""
